@@ -55,7 +55,7 @@ def hist_to_scenario(hist):
             sc['cuts'].append(int(h['n']))
         elif k == 'final':
             if cur is not None:
-                cur['moves'].append(['final', list(h['b'])])
+                cur['moves'].append(['final', list(h['b'])] + ([True] if h.get('drop') else []))
                 if h.get('eager'):
                     cur['eager_final'] = True
         elif k == 'data':
@@ -204,6 +204,31 @@ def long_line_scenarios(limit=256):
             sc = json.loads(json.dumps(base))
             sc['cuts'] = lead + v
             yield sc
+
+
+def torn_scenarios():
+    """The control connection ends in the middle of a reply: the reply of step i (or the closing reply of the
+    transfer) lacks its last k bytes (1: the LF, 2: CR LF, 3: part of the text too) and nothing follows."""
+    bases = [({'mode': 'file', 'restart': True, 'user': [], 'pass': [], 'path': [97]}, False),
+             ({'mode': 'listing', 'restart': False, 'user': [117], 'pass': [112], 'path': []}, True)]
+    for sess, fb in bases:
+        steps = happy_replies(sess['mode'], sess.get('restart'), fallback=fb)
+        for k in (1, 2, 3):
+            for i in range(len(steps)):
+                sc = happy_scenario(sess, fallback=fb)
+                sc['replies'] = sc['replies'][:i + 1]
+                sc['replies'][i] = dict(sc['replies'][i], b=sc['replies'][i]['b'][:-k], drop=True, xfer=False)
+                sc['xfers'] = []
+                yield sc
+            for order in ('after', 'before', 'eager'):
+                sc = happy_scenario(sess, fallback=fb)
+                fin = ['final', list(shape_bytes(226, b'ok', 'single'))[:-k], True]
+                if order == 'after':
+                    moves = [['data', 2], ['close'], fin]
+                else:
+                    moves = [fin, ['data', 2], ['close']]
+                sc['xfers'] = [{'eager_final': order == 'eager', 'moves': moves}]
+                yield sc
 
 
 def strip_cuts(sc):
